@@ -51,6 +51,8 @@ func EvOf(raw bson.Raw) *Ev {
 			e.Tag, _ = v.StringValueOK()
 		} else if v, err := d.Full.LookupErr("tag"); err == nil {
 			e.Tag, _ = v.StringValueOK()
+		} else if v, err := d.Full.LookupErr("by"); err == nil {
+			e.Tag, _ = v.StringValueOK()
 		}
 	}
 	return e
